@@ -82,6 +82,8 @@ func runC07(rc *RC) {
 		}
 		if ch.Chance("workload", 1, 8) {
 			in.id = ""
+		} else {
+			in.id += c06IDTail(ch) // ids are opaque: characters that need escaping, spaces, non-ASCII text
 		}
 		if ch.Chance("workload", 1, 2) {
 			// another entity, another resource of our own account, or our own account's bare address
@@ -110,7 +112,7 @@ func runC07(rc *RC) {
 			fmt.Fprintf(&sb, ` type="%s"`, in.typ)
 		}
 		if in.id != "" {
-			fmt.Fprintf(&sb, ` id="%s"`, in.id)
+			fmt.Fprintf(&sb, ` id="%s"`, escText(in.id))
 		}
 		if in.from != "" {
 			fmt.Fprintf(&sb, ` from="%s"`, in.from)
